@@ -1,0 +1,198 @@
+//! Verification builds only (`--cfg pavex_verif`): a deterministic scheduler for the parallel
+//! sections of the documentation pipeline.
+//!
+//! When the environment variable `VERIF_PAR_SEED` is set, every parallel section runs its items on
+//! real threads of which exactly ONE runs at any time: a thread gives up the processor only at a
+//! [`yield_point`] (placed at the synchronisation points the items share: the diagnostic sink, the
+//! on-disk cache) or when its item is done, and a PRNG seeded from `VERIF_PAR_SEED` decides which
+//! thread runs next. One seed is one interleaving, exactly repeatable. Every decision is appended
+//! to the file named by `VERIF_PAR_TRACE`, if set.
+//!
+//! Without `VERIF_PAR_SEED` (and in every build without the cfg flag) the sections run on rayon,
+//! as shipped.
+use std::cell::Cell;
+use std::io::Write as _;
+use std::sync::{Condvar, Mutex, OnceLock};
+
+struct State {
+    rng: u64,
+    /// tasks of the current section that have not finished
+    live: Vec<usize>,
+    /// tasks of the current section that have reached their starting line
+    arrived: usize,
+    expected: usize,
+    /// the task that holds the processor
+    current: Option<usize>,
+    section: u64,
+    decisions: u64,
+}
+
+static STATE: Mutex<State> = Mutex::new(State {
+    rng: 0,
+    live: Vec::new(),
+    arrived: 0,
+    expected: 0,
+    current: None,
+    section: 0,
+    decisions: 0,
+});
+static CV: Condvar = Condvar::new();
+
+thread_local! {
+    static TASK: Cell<Option<usize>> = const { Cell::new(None) };
+}
+
+fn seed() -> Option<u64> {
+    static SEED: OnceLock<Option<u64>> = OnceLock::new();
+    *SEED.get_or_init(|| {
+        std::env::var("VERIF_PAR_SEED")
+            .ok()
+            .and_then(|s| s.trim().parse().ok())
+    })
+}
+
+/// Is the deterministic scheduler in charge of the parallel sections of this process?
+pub fn enabled() -> bool {
+    seed().is_some()
+}
+
+fn trace(line: std::fmt::Arguments<'_>) {
+    if let Some(path) = std::env::var_os("VERIF_PAR_TRACE") {
+        if let Ok(mut f) = std::fs::OpenOptions::new()
+            .create(true)
+            .append(true)
+            .open(path)
+        {
+            let _ = writeln!(f, "{line}");
+        }
+    }
+}
+
+fn next(s: &mut State) -> u64 {
+    // splitmix64
+    s.rng = s.rng.wrapping_add(0x9E37_79B9_7F4A_7C15);
+    let mut z = s.rng;
+    z = (z ^ (z >> 30)).wrapping_mul(0xBF58_476D_1CE4_E5B9);
+    z = (z ^ (z >> 27)).wrapping_mul(0x94D0_49BB_1331_11EB);
+    z ^ (z >> 31)
+}
+
+/// Hand the processor to one of the live tasks.
+fn pick(s: &mut State, at: &str) {
+    if s.live.is_empty() {
+        s.current = None;
+        return;
+    }
+    let k = (next(s) % s.live.len() as u64) as usize;
+    let t = s.live[k];
+    s.current = Some(t);
+    s.decisions += 1;
+    trace(format_args!(
+        "section {} decision {}: task {} of {:?} runs (at {})",
+        s.section, s.decisions, t, s.live, at
+    ));
+}
+
+/// A point at which the running task may be descheduled in favour of another one.
+/// A no-op outside a scheduled parallel section.
+pub fn yield_point(label: &'static str) {
+    let Some(me) = TASK.with(|t| t.get()) else {
+        return;
+    };
+    let mut s = STATE.lock().unwrap();
+    debug_assert_eq!(s.current, Some(me));
+    pick(&mut s, label);
+    CV.notify_all();
+    while s.current != Some(me) {
+        s = CV.wait(s).unwrap();
+    }
+}
+
+/// `items.into_par_iter().map(f).collect::<Vec<_>>()`, one item per thread, one thread running
+/// at a time, the seeded scheduler deciding who runs at every yield point.
+pub fn par_map<T, R, F>(items: Vec<T>, f: F) -> Vec<R>
+where
+    T: Send,
+    R: Send,
+    F: Fn(T) -> R + Sync,
+{
+    let n = items.len();
+    if n == 0 {
+        return Vec::new();
+    }
+    {
+        let mut s = STATE.lock().unwrap();
+        if s.section == 0 {
+            s.rng = seed().unwrap_or(0);
+        }
+        s.section += 1;
+        s.live = (0..n).collect();
+        s.arrived = 0;
+        s.expected = n;
+        s.current = None;
+        trace(format_args!("section {}: {} tasks", s.section, n));
+    }
+    let f = &f;
+    std::thread::scope(|scope| {
+        let handles: Vec<_> = items
+            .into_iter()
+            .enumerate()
+            .map(|(i, item)| {
+                scope.spawn(move || {
+                    TASK.with(|t| t.set(Some(i)));
+                    {
+                        // starting line: nobody runs before everybody is here
+                        let mut s = STATE.lock().unwrap();
+                        s.arrived += 1;
+                        if s.arrived == s.expected {
+                            pick(&mut s, "start");
+                            CV.notify_all();
+                        }
+                        while s.current != Some(i) {
+                            s = CV.wait(s).unwrap();
+                        }
+                    }
+                    // a panic in `f` must not leave the other tasks waiting for ever
+                    struct Done(usize);
+                    impl Drop for Done {
+                        fn drop(&mut self) {
+                            let mut s = STATE.lock().unwrap();
+                            s.live.retain(|t| *t != self.0);
+                            pick(&mut s, "task end");
+                            drop(s);
+                            CV.notify_all();
+                            TASK.with(|t| t.set(None));
+                        }
+                    }
+                    let _done = Done(i);
+                    f(item)
+                })
+            })
+            .collect();
+        handles
+            .into_iter()
+            .map(|h| match h.join() {
+                Ok(r) => r,
+                Err(p) => std::panic::resume_unwind(p),
+            })
+            .collect()
+    })
+}
+
+/// What the parallel sections call in verification builds: the scheduled version when
+/// `VERIF_PAR_SEED` is set, rayon otherwise.
+pub fn par_map_or_rayon<I, T, R, F>(items: I, f: F) -> Vec<R>
+where
+    I: IntoIterator<Item = T>,
+    T: Send,
+    R: Send,
+    F: Fn(T) -> R + Sync + Send,
+{
+    let items: Vec<T> = items.into_iter().collect();
+    if enabled() {
+        par_map(items, f)
+    } else {
+        use rayon::prelude::{IntoParallelIterator, ParallelIterator};
+        items.into_par_iter().map(f).collect()
+    }
+}
